@@ -708,16 +708,19 @@ class BrownianInterval(brownian_base.BaseBrownian, _Interval):
         # For safety we then make this a bit smaller by multiplying by 0.8.
         piece_length = self._tree_dt * cache_size * 0.8
 
-        def _set_points(interval):
+        # Depth-first, left child first. We use an explicit stack rather than recursion: the tree may already contain
+        # long chains of intervals (from sequential queries made during the warm-up), and recursing along those
+        # overflows the Python stack.
+        stack = [self]
+        while len(stack):
+            interval = stack.pop()
             start = interval._start
             end = interval._end
             if end - start > piece_length:
                 midway = (end + start) / 2
                 interval._loc(start, midway)
-                _set_points(interval._left_child)
-                _set_points(interval._right_child)
-
-        _set_points(self)
+                stack.append(interval._right_child)
+                stack.append(interval._left_child)
 
     def __repr__(self):
         if self._dt is None:
